@@ -35,7 +35,7 @@ STEPS = ["sgd-operand", "adam-derived", "reset-operand", "reset-derived", "load-
 
 
 def plan(tier, seed):
-    n = 5 if tier == "quick" else 600
+    n = 10 if tier == "quick" else 600
     return [{"kind": "pipe", "pipe": kind, "k": k, "seed": seed} for kind in pipes.PIPE_KINDS for k in range(n)]
 
 
